@@ -655,10 +655,10 @@ class Program:
         """the code body: for an async fn that is `path::{closure#0}`."""
         path = path if path in self.fns else self.alias.get(path, path)
         f = self.fns.get(path + '::{closure#0}')
-        if f is not None and self.fns.get(path) is not None and len(self.fns[path].blocks) <= 12:
+        if f is not None and self.fns.get(path) is not None:
             # async fn: the outer body only builds the coroutine
             outer = self.fns[path]
-            if any(s.get('rv', {}).get('ak') == 'coroutine' for b in outer.blocks for s in b['s']):
+            if any(s.get('rv', {}).get('ak') == 'coroutine' and s['rv'].get('def') == f.path for b in outer.blocks for s in b['s']):
                 return f
         return self.fn(path, required)
 
